@@ -478,8 +478,18 @@ pub fn adversarial_name(rng: &mut Rng) -> String {
     pick_s(rng, &["", "_x", "d", "d", "lemma_1", "_", "x_0", "formula_0_d", "unnamed_formula"])
 }
 
-/// an outline entry; mostly acceptable, with every rejected kind planted with small probability
-pub fn outline_entry(rng: &mut Rng, known: &[(&str, usize)], fresh: &[(&str, usize)], defined: &mut Vec<(String, usize)>) -> fol::AnnotatedFormula {
+/// an outline entry; mostly acceptable, with every rejected kind planted with small probability.
+/// `tempting` = names a definition must NOT be allowed to define when they occur in the task (task
+/// predicates, the other side's private predicates, names of private predicates AFTER the `_p`
+/// renaming); a definition targets a fresh name with probability `fresh_pct`, a tempting one otherwise.
+pub fn outline_entry(
+    rng: &mut Rng,
+    known: &[(&str, usize)],
+    tempting: &[(&str, usize)],
+    fresh_pct: usize,
+    fresh: &[(&str, usize)],
+    defined: &mut Vec<(String, usize)>,
+) -> fol::AnnotatedFormula {
     let vars: &[(&str, fol::Sort)] = &[("X", fol::Sort::General), ("Y", fol::Sort::General), ("N", fol::Sort::Integer), ("I", fol::Sort::Integer), ("S", fol::Sort::Symbol)];
     let mut preds: Vec<(&str, usize)> = known.to_vec();
     let defined_now: Vec<(String, usize)> = defined.clone();
@@ -539,7 +549,7 @@ pub fn outline_entry(rng: &mut Rng, known: &[(&str, usize)], fresh: &[(&str, usi
         }
         2 => {
             // definition  forall X.. (aux(X..) <-> F)
-            let (p, n) = if rng.chance(88) { *rng.pick(fresh) } else { *rng.pick(known) };
+            let (p, n) = if rng.chance(fresh_pct) { *rng.pick(fresh) } else { *rng.pick(tempting) };
             let pool = ["X", "Y", "Z"];
             let mut vs: Vec<fol::Variable> = (0..n).map(|i| fol::Variable { name: pool[i % 3].to_string(), sort: fol::Sort::General }).collect();
             let bvars: Vec<(&str, fol::Sort)> = vs.iter().map(|v| (pool[pool.iter().position(|x| *x == v.name).unwrap()], v.sort)).collect();
@@ -587,12 +597,15 @@ pub fn outline_entry(rng: &mut Rng, known: &[(&str, usize)], fresh: &[(&str, usi
 }
 
 pub fn outline(rng: &mut Rng, known: &[(&str, usize)], max: usize) -> fol::Specification {
+    outline_with(rng, known, known, 88, max)
+}
+pub fn outline_with(rng: &mut Rng, known: &[(&str, usize)], tempting: &[(&str, usize)], fresh_pct: usize, max: usize) -> fol::Specification {
     let fresh: &[(&str, usize)] = &[("aux", 1), ("aux2", 2), ("d", 0), ("aux", 2)];
     let mut defined = vec![];
     let n = rng.below(max + 1);
     let mut formulas = vec![];
     for _ in 0..n {
-        let e = outline_entry(rng, known, fresh, &mut defined);
+        let e = outline_entry(rng, known, tempting, fresh_pct, fresh, &mut defined);
         // an entry of a role forbidden in outlines only rarely (it ends the construction)
         if matches!(e.role, fol::Role::Assumption | fol::Role::Spec) && rng.chance(70) {
             continue;
